@@ -1,0 +1,57 @@
+//go:build verif
+
+package storage
+
+// Verification hooks for properties C35/C26 (topology index, round work). Add-only, compiled
+// only with the `verif` build tag.
+
+import (
+	"github.com/MixinNetwork/mixin/common"
+	"github.com/MixinNetwork/mixin/crypto"
+	"github.com/dgraph-io/badger/v4"
+)
+
+// VerifWriteRound creates the round record WriteSnapshot's debug assertion looks up.
+func (s *BadgerStore) VerifWriteRound(nodeId crypto.Hash, number uint64) error {
+	return s.snapshotsDB.Update(func(txn *badger.Txn) error {
+		return writeRound(txn, nodeId, &common.Round{Hash: nodeId, NodeId: nodeId, Number: number, References: &common.RoundLink{}})
+	})
+}
+
+// VerifWriteXINAsset writes the asset record finalizeTransaction accounts against.
+func (s *BadgerStore) VerifWriteXINAsset() error {
+	return s.snapshotsDB.Update(func(txn *badger.Txn) error {
+		return writeAssetInfo(txn, common.XINAssetId, common.XINAsset)
+	})
+}
+
+// VerifGraphWipe deletes every key of the snapshots database.
+func (s *BadgerStore) VerifGraphWipe() error {
+	for {
+		var keys [][]byte
+		err := s.snapshotsDB.View(func(txn *badger.Txn) error {
+			opts := badger.DefaultIteratorOptions
+			opts.PrefetchValues = false
+			it := txn.NewIterator(opts)
+			defer it.Close()
+			for it.Rewind(); it.Valid() && len(keys) < 5000; it.Next() {
+				keys = append(keys, it.Item().KeyCopy(nil))
+			}
+			return nil
+		})
+		if err != nil || len(keys) == 0 {
+			return err
+		}
+		err = s.snapshotsDB.Update(func(txn *badger.Txn) error {
+			for _, k := range keys {
+				if err := txn.Delete(k); err != nil {
+					return err
+				}
+			}
+			return nil
+		})
+		if err != nil {
+			return err
+		}
+	}
+}
